@@ -1,9 +1,15 @@
 package props
 
 import (
+	"bytes"
+	"context"
 	"fmt"
+	"os"
+	"os/exec"
+	"path/filepath"
 	"strings"
 	"testing"
+	"time"
 
 	"pgregory.net/rapid"
 
@@ -140,4 +146,105 @@ func TestC16(t *testing.T) {
 		hx.WriteFailure("C16", "empty", "empty warrior prints a non-empty listing", map[string]string{"listing": l})
 		t.Fatalf("empty warrior prints %q", l)
 	}
+}
+
+
+// ---- the same listing through the command line tool's -A option
+
+type cliListCase struct {
+	Cfg   gen.AsmConfig
+	Code  []ref.Instr
+	Start int
+	Two   bool // two files on the command line: two listings are printed
+}
+
+func genCliListCase(t *rapid.T) cliListCase {
+	var c cliListCase
+	legacy := rapid.IntRange(0, 2).Draw(t, "dialect") == 0
+	m := rapid.SampledFrom([]int64{8000, 80, 800, 8192, 55440, 100003, 17}).Draw(t, "M")
+	l := m / 3
+	if l > 100 {
+		l = 100
+	}
+	if l < 1 {
+		l = 1
+	}
+	c.Cfg = gen.AsmConfig{Legacy: legacy, CoreSize: m, Length: l, Distance: l, Processes: 8000}
+	maxLen := 10
+	if int64(maxLen) > l {
+		maxLen = int(l)
+	}
+	c.Code, c.Start = genDialectWarrior(t, legacy, int(m), maxLen)
+	c.Two = rapid.Bool().Draw(t, "two")
+	return c
+}
+
+var cliListSeq int
+
+func judgeCliListCase(c cliListCase, rec *hx.Rec) string {
+	bin, tmp := os.Getenv("VERIF_GMARS_BIN"), os.Getenv("VERIF_TMP")
+	if bin == "" || tmp == "" {
+		panic("INCOMPLETE: VERIF_GMARS_BIN / VERIF_TMP not set (run through ./check)")
+	}
+	if len(c.Code) == 0 || c.Start < 0 || c.Start >= len(c.Code) {
+		return "malformed case"
+	}
+	m := int(c.Cfg.CoreSize)
+	cliListSeq++
+	dir := filepath.Join(tmp, fmt.Sprintf("clia-%d-%d", hx.Shard(), cliListSeq))
+	_ = os.MkdirAll(dir, 0o755)
+	defer os.RemoveAll(dir)
+	f1 := filepath.Join(dir, "w.red")
+	if os.WriteFile(f1, []byte(rc.PrintLoadFile(c.Code, c.Start, c.Cfg.Legacy, m, rc.LoadStyle{})), 0o644) != nil {
+		panic("INCOMPLETE: cannot write warrior file")
+	}
+	args := []string{"-A", "-s", fmt.Sprint(m), "-l", fmt.Sprint(c.Cfg.Length)}
+	if c.Cfg.Legacy {
+		args = append(args, "-8")
+	}
+	args = append(args, f1)
+	if c.Two {
+		args = append(args, f1)
+	}
+	ctx, cancel := context.WithTimeout(context.Background(), 60*time.Second)
+	defer cancel()
+	cmd := exec.CommandContext(ctx, bin, args...)
+	var stdout, stderr bytes.Buffer
+	cmd.Stdout, cmd.Stderr = &stdout, &stderr
+	if err := cmd.Run(); err != nil || stderr.Len() != 0 {
+		return fmt.Sprintf("gmars %v: %v, stderr %q, stdout %q", args, err, stderr.String(), stdout.String())
+	}
+	listings := []string{stdout.String()}
+	if c.Two {
+		// the two listings are separated by the blank line Println adds; both must denote the warrior
+		text := stdout.String()
+		half := len(text) / 2
+		listings = []string{text[:half], text[half:]}
+	}
+	for k, listing := range listings {
+		code, start, err := rc.ReadListing(listing, c.Cfg.Legacy, m)
+		if err != nil {
+			return fmt.Sprintf("gmars %v: listing %d is not readable by the pMARS listing conventions: %v\n%s", args, k, err, stdout.String())
+		}
+		if len(code) != len(c.Code) || start != c.Start {
+			return fmt.Sprintf("gmars %v: listing %d denotes %d instructions with entry %d, warrior has %d with entry %d\n%s", args, k, len(code), start, len(c.Code), c.Start, stdout.String())
+		}
+		for i := range code {
+			if code[i] != c.Code[i] {
+				return fmt.Sprintf("gmars %v: listing %d line %d denotes %s, warrior instruction is %s\n%s", args, k, i, hx.InstrString(code[i]), hx.InstrString(c.Code[i]), stdout.String())
+			}
+		}
+	}
+	if rec != nil {
+		rec.Case(len(c.Code) >= 2, hx.HashJSON(c), func() any { return map[string]any{"args": args, "stdout": stdout.String()} })
+	}
+	return ""
+}
+
+func TestC16_CommandLine(t *testing.T) {
+	hx.Run(t, hx.Prop[cliListCase]{
+		ID: "C16", Sub: "cli_A", Checks: hx.Scale(250, 16000),
+		Rule: "the same property through the command line: a freshly built cmd/gmars is run with -A (and -s, -l, optionally -8) on a generated warrior file, once or twice on the command line; each printed listing must be readable by the independent listing reader and denote the warrior (fields modulo M, entry point), stderr empty, exit status 0. Non-trivial: at least two instructions; distinct by case hash.",
+		Gen: genCliListCase, Judge: judgeCliListCase,
+	})
 }
